@@ -40,7 +40,7 @@ def vet_diags(ctx, root, cfg, patterns=("./...",)):
             f = m.group(1)
             f = os.path.relpath(f, root) if f.startswith("/") else os.path.normpath(f)
             res.add((f, int(m.group(2)), int(m.group(3)), m.group(5), m.group(4)))
-    crashed = bool(re.search(r"panic:|internal error", err + out))
+    crashed = lib.crash_in(err + "\n" + out)
     return res, rc, crashed, err[-1500:]
 
 
